@@ -25,6 +25,7 @@ open UtilModel
 #print axioms LinkedList.linkedlist_linearizable
 #print axioms LinkedList.lincheck_sound
 #print axioms LinkedList.lincheck_sound_textbook
+#print axioms LinkedList.mutator_excluded_by_reader
 #print axioms LinkedList.no_panic
 #print axioms LinkedList.C12_obs_linkedlist
 #print axioms LinkedList.abs_eq
